@@ -634,3 +634,26 @@ for _p in ('C01', 'C10', 'C13', 'C18'):
         "listed in DESIGN 0.9); the msgp primitives the statements call are the modelled ones"]
     PROPS[_p]['technique'] = PROPS[_p]['technique'] + ('; the hand-written decoders are additionally tied by translation: their bodies are regenerated from the '
         'Go source on every run and proved equal (as functions of receiver and input) to the decoder models')
+
+# ---- encoder skeletons: the bodies of MarshalMsg / EncodeMsg of the four message types (msgp-generated and hand-written) are regenerated
+# from the source and proved to append exactly the encoder model's bytes (Tie/CodecEnc.lean)
+_SKE_THEOREMS = ['FV.Tie.Message_MarshalMsg_is_model', 'FV.Tie.Message_EncodeMsg_is_model', 'FV.Tie.MessageExt_MarshalMsg_is_model',
+                 'FV.Tie.MessageExt_EncodeMsg_is_model', 'FV.Tie.Forward_MarshalMsg_is_model', 'FV.Tie.Forward_EncodeMsg_is_model',
+                 'FV.Tie.Packed_MarshalMsg_is_model', 'FV.Tie.Packed_EncodeMsg_is_model']
+_SKE_TEXT = (" Regenerated tie for the encoders: the bodies of MarshalMsg / EncodeMsg of Message, MessageExt, PackedForwardMessage (msgp-generated) "
+             "and ForwardMessage (hand-written) are re-read from /repo's working tree on every run (Gen/Codec.lean, `.unknown` for anything "
+             "unrecognised) and T_MarshalMsg_is_model / T_EncodeMsg_is_model (Tie/CodecEnc.lean) prove that running the regenerated body on a "
+             "message and the caller's bytes yields those bytes followed by T.marshal (`.err` exactly where the model has no encoding); the Go "
+             "variable `err` is part of the interpreter's state (ForwardMessage.MarshalMsg returns an unchecked one).")
+for _p in ('C01', 'C02', 'C03', 'C12'):
+    PROPS[_p]['translator'] = True
+    PROPS[_p]['lean_modules'] = PROPS[_p]['lean_modules'] + ['FluentVerif.Tie.CodecEnc']
+    PROPS[_p]['theorems'] = PROPS[_p]['theorems'] + _SKE_THEOREMS
+    PROPS[_p]['explanation'] = PROPS[_p]['explanation'] + _SKE_TEXT
+    if not any('translator/codec.go' in a for a in PROPS[_p]['assumptions']):
+        PROPS[_p]['assumptions'] = PROPS[_p]['assumptions'] + [
+            "translator/codec.go is trusted to render each recognised Go statement as the Sk statement of the same meaning (its rules are "
+            "listed in DESIGN 0.9); the msgp primitives the statements call are the modelled ones"]
+    if 'tied by translation' not in PROPS[_p]['technique']:
+        PROPS[_p]['technique'] = PROPS[_p]['technique'] + ('; encoder bodies are additionally tied by translation: regenerated from the Go source on every '
+            'run and proved to append exactly the encoder model\'s bytes')
